@@ -26,7 +26,7 @@ func init() {
 			if tier == "quick" {
 				return 384
 			}
-			return 2400
+			return 7200
 		},
 		Run: func(c *Ctx, idx int) { runQuota(c, idx, false) },
 		Required: []string{"epochs", "epochs.plain_quota_checked", "epochs.delta_coding", "epochs.stolen", "epochs.makeup", "species.zero_quota",
@@ -44,7 +44,7 @@ func init() {
 			if tier == "quick" {
 				return 384
 			}
-			return 2400
+			return 7200
 		},
 		Run:      func(c *Ctx, idx int) { runQuota(c, idx, true) },
 		Required: []string{"champions", "champions.with_disabled", "champions.super_champ_branch", "champions.parallel", "champions.quota_6_to_8", "champions.delta_coding"},
